@@ -173,6 +173,26 @@ Theorem uid_under_retries : forall plans (r : rdd), transient_plans plans r ->
   fst (run_job plans (zip_uid_part (num_partitions r)) r) = Ok (glom (zip_with_unique_id r)).
 Proof. exact uid_under_retries_lemma. Qed.
 
+(* ---- a job on a SUBSET or a REORDERING of the partitions (Context.runJob(rdd, func, partitions=sel),
+   sel any list of Partition objects of the dataset): every task computes from its partition's OWN
+   index, so the results are those of the full job for these partitions, and the stage functions see
+   the partitions' own indices in the order of sel.  For zipWithUniqueId: element k of a chosen
+   partition with index i gets k*n+i with n the partition count of the whole dataset. *)
+Theorem subset_job_layout : forall plans (f : Z -> list val -> list val) (r sel : rdd),
+  incl sel r -> transient_plans plans sel ->
+  run_job plans f sel =
+    (Ok (map (fun ip => f (fst ip) (snd ip)) sel),
+     flat_map (fun ip => repeat (fst ip) (S (fails_before (plans (fst ip))))) sel) /\
+  (forall ip, In ip sel -> In (fst ip, f (fst ip) (snd ip)) (map_partitions_with_index f r)).
+Proof. exact subset_job_lemma. Qed.
+
+Theorem uid_on_partition_subset : forall (r sel : rdd) j i p k x,
+  incl sel r -> nth_error sel j = Some (i, p) -> nth_error p k = Some x ->
+  exists ps q, fst (run_job (fun _ => []) (zip_uid_part (num_partitions r)) sel) = Ok ps /\
+    nth_error ps j = Some q /\
+    nth_error q k = Some (VTup [x; VInt (Z.of_nat k * num_partitions r + i)]).
+Proof. exact uid_subset_lemma. Qed.
+
 (* ---- zipWithIndex: one partition; element k of the flattened input is paired with k *)
 Theorem zipWithIndex_form : forall (r : rdd),
   num_partitions (zip_with_index r) = 1 /\
